@@ -242,6 +242,18 @@ NextLine(r) ==
       FlagT(code) == IF e.posterr /\ code \in PostErrTolerated
                      THEN /\ skip' = TRUE /\ UNCHANGED <<run, ct, its, diag>>
                      ELSE Flag(code)
+      \* an item that is not the predicted one is still part of what this run yielded: it is kept (as the crate reported
+      \* it) for the comparisons BETWEEN real runs (layout groups, C20), which must not depend on the prediction
+      RowView(off) == [k |-> "row", line |-> r.item.line, off |-> off, inputs |-> r.item.inputs,
+                       exp |-> [n \in DOMAIN r.item.outputs |-> [s |-> r.item.outputs[n].s, v |-> r.item.outputs[n].exp]]]
+      \* (pl: the line the specification predicts for this item; the item's own line where there is no prediction)
+      ItemViewAt(pl) == IF r.item.k = "row" THEN RowView(r.item.line - pl) ELSE [k |-> "odd"]
+      FlagRow(code, view) ==
+        /\ its' = [its EXCEPT ![r.it].dyn = Append(@, view)]
+        /\ skip' = TRUE
+        /\ UNCHANGED <<run, ct>>
+        /\ IF e.posterr /\ code \in PostErrTolerated THEN UNCHANGED diag
+           ELSE PrintT(<<"DIAG", run, l, code>>) /\ diag' = diag \cup {<<run, l, code>>}
       \* the reason of the error item (division by zero, unassigned variable, Z/X read, wrong number / order of
       \* outputs, the driver's own error) is predicted too; no listed property fixes it, so a difference is a note
       \* (item.why, owned by none) and the run is followed on
@@ -259,7 +271,7 @@ NextLine(r) ==
   ELSE IF ~rf.ok THEN Flag("rng.replay")
   ELSE IF c.k = "none" THEN
        IF c.pos # Len(r.rng) THEN FlagT("rng.tape")
-       ELSE IF r.item.k # "none" THEN FlagT("item.kind")
+       ELSE IF r.item.k # "none" THEN FlagRow("item.kind", ItemViewAt(r.item.line))
        ELSE \* the iterator stays usable: further next() calls must again return None without a call
             /\ its' = [its EXCEPT ![r.it].it = c.it, ![r.it].rng = rf.st]
             /\ UNCHANGED <<run, ct, skip, diag>>
@@ -269,13 +281,13 @@ NextLine(r) ==
             THEN \* the properties allow an error item or a value here; stop following this run
                  /\ skip' = TRUE /\ UNCHANGED <<run, ct, its, diag>>
        ELSE IF c.pos # Len(r.rng) THEN FlagT("rng.tape")
-       ELSE IF r.item.k # "err" \/ r.calls # <<>> THEN FlagT("item.kind")
+       ELSE IF r.item.k # "err" \/ r.calls # <<>> THEN FlagRow("item.kind", ItemViewAt(r.item.line))
        ELSE IF r.item.class # "runtime" THEN FlagT("item.class")
        ELSE AfterError(c.it, e.lastIn, c.err)
   ELSE \* a driver call is due
-       IF r.calls = <<>> THEN FlagT("item.kind")
-       ELSE IF r.calls[1].kind # c.call.kind THEN FlagT("call.kind")
-       ELSE IF ~SameSV(r.calls[1].inputs, c.call.inputs) THEN FlagT(InputsCode(r.calls[1].inputs, c.call.inputs))
+       IF r.calls = <<>> THEN FlagRow("item.kind", [k |-> "odd"])
+       ELSE IF r.calls[1].kind # c.call.kind THEN FlagRow("call.kind", ItemViewAt(c.row.line))
+       ELSE IF ~SameSV(r.calls[1].inputs, c.call.inputs) THEN FlagRow(InputsCode(r.calls[1].inputs, c.call.inputs), ItemViewAt(c.row.line))
        ELSE
          \E ret \in {NextReturn(ct, c.it, c.row, r.answer, rs, c.pos)} :
          LET p == ret.item
@@ -286,16 +298,16 @@ NextLine(r) ==
              ELSE IF ret.pos # Len(r.rng) THEN FlagT("rng.tape")
              ELSE IF r.item.k = "row" /\ ~VirtualOutputs(ct, r.item.outputs, r.answer.outs) THEN Flag("attr.virtual")
              ELSE IF r.item.k # p.k THEN
-                  FlagT(IF p.k = "err" /\ p.class = "driver" THEN "fault.lost"
-                        ELSE IF p.k = "err" /\ p.why \in {"count", "order"} THEN "fault.deviation"
-                        ELSE "item.kind")
+                  FlagRow(IF p.k = "err" /\ p.class = "driver" THEN "fault.lost"
+                          ELSE IF p.k = "err" /\ p.why \in {"count", "order"} THEN "fault.deviation"
+                          ELSE "item.kind", [k |-> "odd"])
              ELSE IF p.k = "err" THEN
                   IF r.item.class # p.class THEN FlagT("item.class")
                   ELSE IF p.class = "driver" /\ r.item.id # p.id THEN FlagT("fault.identity")
                   ELSE AfterError(ret.it, r.calls[1].inputs, p.why)
              ELSE \* a row
                   LET code == CompareRow(e, c, ret, r)
-                  IN  IF code # "ok" THEN FlagT(code)
+                  IN  IF code # "ok" THEN FlagRow(code, RowView(r.item.line - ret.item.line))
                       ELSE /\ its' = [its EXCEPT ![r.it].it = ret.it,
                                                  ![r.it].lastIn = r.item.inputs, ![r.it].rng = rf.st,
                                                  ![r.it].dyn = Append(@, [k |-> "row", line |-> r.item.line, off |-> r.item.line - ret.item.line, inputs |-> r.item.inputs,
@@ -356,7 +368,7 @@ NextStaticLine(r) ==
 \* first variant (so the line shifts by exactly the lines inserted above the row).  The first variant's items are
 \* kept in a TLC register between runs (trace validation runs on one worker).
 GroupView(d) == [n \in DOMAIN d |-> IF d[n].k = "row" THEN [k |-> "row", off |-> d[n].off, inputs |-> d[n].inputs, exp |-> d[n].exp]
-                                     ELSE [k |-> "other", off |-> 0, inputs |-> <<>>, exp |-> <<>>]]
+                                     ELSE [k |-> IF d[n].k = "odd" THEN "odd" ELSE "other", off |-> 0, inputs |-> <<>>, exp |-> <<>>]]
 \* Static = dynamic, item by item (rows: line, input vector with flags, expected values; error items and the end in the same
 \* places), up to the first dynamic item that a static run cannot have (an error of the driver or about its answer) and as
 \* far as both were recorded.  Mid-clock rows of the dynamic run carry no expected values.
